@@ -28,7 +28,7 @@ from fractions import Fraction
 
 import numpy as np
 
-from . import lib
+from . import lib, hist
 
 GEN = lib.GEN
 OBL = os.path.join(GEN, 'obl')
@@ -137,6 +137,7 @@ def gen_x(rng, shape, rep=None, deriv=None):
     if deriv:
         d['dvals'] = [rng.choice([1.0, -1.0, 0.5, 2.0, 0.0]) for _ in range(n)]
         d['dkey'] = deriv
+        d['plusnum'] = rng.random() < 0.5
     return d
 
 
@@ -168,7 +169,14 @@ def build_x(d, Pm):
     derivs = {}
     if d.get('dvals') is not None:
         derivs[d['dkey']] = Pm.Scalar(np.array(d['dvals'], dtype=float).reshape(shape))
-    return Pm.Scalar(arr, the_mask(d), derivs=derivs)
+    x = Pm.Scalar(arr, the_mask(d), derivs=derivs)
+    if d.get('plusnum') and derivs and np.array_equal((arr - 2.0) + 2.0, arr):
+        # the evaluation point is the result of the number fast path on a point whose derivative-free twin is cached
+        # (seeded change C20-E: Polynomial.eval builds the powers of x with x.wod)
+        x0 = x - 2.0
+        hist.warm(x0)
+        x = x0 + 2.0
+    return x
 
 
 def coef_of(d, key='coef'):
